@@ -25,7 +25,7 @@ CLAIMED = {
        "table with the right affix; ordered choices never split a multi-character operator; Rule->BinOperator map total, injective, "
        "display = grammar literal. UNBOUNDED (Thm/C14Gen): for an operand / binary-operator chain of ANY length the Pratt loop answers a tree within the fuel `parse` gives it and without reaching one of its panics (parse_chain_total), the tree reads "
        "back as the chain, and at EVERY node `l o r` of the tree an operator at the root of `l` binds tighter than `o` or equally tight on a "
-       "left-associative level, one at the root of `r` tighter or equally tight on a right-associative level (parse_chain_flatten, "
+       "left-associative level, one at the root of `r` tighter or equally tight on a right-associative level, and that tree is the ONLY tree of operand leaves and binary nodes over the chain with this property (parse_chain_unique: pc_global turns the node-local condition into one about all operators below a node, pc_unique shows two such trees split the chain at the same operator) (parse_chain_flatten, "
        "parse_chain_grouping: induction over the loop with the invariants `the next operator does not bind tighter than rbp` and `the root binds "
        "tighter than rbp`, for any table whose levels have one associativity - table_uniform discharges that for the regenerated table). "
        "Tied by running the real PRATT_PARSER (tree-building closures) against the model and an "
